@@ -186,6 +186,59 @@ def compare(path, exp, check_minmax=True, data_rtol=None, phys_tol=0.0, rtol_com
                         break
         if len(probs) > 12:
             break
+    if not probs:
+        probs += ["format: " + x for x in conform(path, r)]
+    return probs
+
+
+def conform(path, r=None, ratio=2):
+    """Format conformance of a *written* plotfile, beyond what the content comparison needs: the lines another
+    reader of the format (AMReX's own tools, a strict parser) depends on. -> list of problems"""
+    import re
+    probs = []
+    if r is None:
+        try:
+            r = refparse.parse(path, with_data=False)
+        except Exception as e:
+            return [f"output does not parse as a plotfile: {type(e).__name__}: {e}"]
+    fl = r["finest"]
+    if not re.match(r"^\S+-V\d+\.\d+$", r["version"]):
+        probs.append(f"version line {r['version']!r}")
+    if len(r["ref"]) < fl or any(x != ratio for x in r["ref"][:fl]):
+        probs.append(f"refinement-ratio line {r['ref']} for {fl + 1} levels")
+    if len(r["steps"]) != fl + 1:
+        probs.append(f"step line has {len(r['steps'])} entries for {fl + 1} levels")
+    if r["coord"].strip() != "0":
+        probs.append(f"coordinate-system line {r['coord']!r}")
+    if len(r["dx"]) != fl + 1 or any(len(d) != r["ndims"] for d in r["dx"]):
+        probs.append("cell-size lines")
+    for lv, lev in enumerate(r["levels"]):
+        if lev["cell_path"] != f"Level_{lv}/Cell":
+            probs.append(f"level {lv}: data path line {lev['cell_path']!r}")
+        if "version" not in lev:
+            continue
+        if lev["version"] != 1 or lev["how"] not in (0, 1) or lev["nghost"] != 0:
+            probs.append(f"level {lv} header starts {lev['version']} / {lev['how']} / {lev['ncomp']} / {lev['nghost']}")
+        if lev["mins"] is not None and lev.get("table_dims") and \
+                lev["table_dims"] != (len(lev["idx"]), lev["ncomp"], len(lev["idx"]), lev["ncomp"]):
+            probs.append(f"level {lv}: min/max tables announce {lev['table_dims']}, level has {len(lev['idx'])} boxes x {lev['ncomp']} fields")
+        byfile = {}
+        for f, o in lev["fod"]:
+            byfile.setdefault(f, []).append(o)
+            if not re.match(r"^Cell_D_\d{5,}$", f):
+                probs.append(f"level {lv}: binary file name {f!r}")
+        for f, offs in byfile.items():
+            fp = os.path.join(lev["dir"], f)
+            if not os.path.isfile(fp):
+                probs.append(f"level {lv}: {f} missing")
+                continue
+            walk, left = refparse.file_walk(fp)
+            starts = sorted(w[0] for w in walk)
+            if left or starts != sorted(offs):
+                probs.append(f"level {lv}: {f} is not exactly the FABs the level header records "
+                             f"({len(starts)} FABs found from byte 0, {left} bytes unaccounted for, {len(offs)} recorded)")
+        if len(probs) > 6:
+            break
     return probs
 
 
